@@ -92,6 +92,8 @@ def _send(self, request, stream=False, timeout=None, verify=True, cert=None, pro
     payload = out.get("json", "{}")
     if isinstance(payload, str):
         payload = payload.encode("utf-8")
+    if out.get("lost_body"):
+        payload = b""           # fault: a success status whose entity body never arrived (zero bytes)
     resp.status_code = 200
     resp.reason = "OK"
     if stream:
